@@ -519,6 +519,38 @@ def rolling_dispatch(tree):
     raise Unsupported("rolling_1d_funcs not found")
 
 
+def flat_statements(fn):
+    """every statement of a function in source order, one string each ('if <test>' for a branch head, then its
+    body, then its else part); docstrings dropped.  Fails on anything that is not if / assignment / return / del."""
+    out = []
+
+    def walk(body):
+        for n in body:
+            if isinstance(n, ast.Expr) and isinstance(n.value, ast.Constant) and isinstance(n.value.value, str):
+                continue
+            if isinstance(n, ast.If):
+                out.append("if " + ast.unparse(n.test))
+                walk(n.body)
+                walk(n.orelse)
+            elif isinstance(n, (ast.Assign, ast.Return, ast.Delete, ast.AugAssign)):
+                out.append(ast.unparse(n))
+            else:
+                fail(n, f"statement kind in {fn.name}")
+    walk(fn.body)
+    return [x.replace('"', "'") for x in out]
+
+
+def moment_formulas(trees):
+    rows = []
+    for mod, names in (("util", ["mean_from_sum_count"]), ("nanops", ["nanmean", "nanvar", "nanstd"])):
+        for name in names:
+            fns = [n for n in trees[mod].body if isinstance(n, ast.FunctionDef) and n.name == name]
+            if len(fns) != 1:
+                raise Unsupported(f"{mod}.{name} not found exactly once")
+            rows.append((name, flat_statements(fns[0])))
+    return rows
+
+
 def gen_tables(trees):
     kern = []
     counters = []
@@ -562,6 +594,9 @@ def gen_tables(trees):
     out.append("(* emas.py: how alpha, the elapsed halflives and the decay factor are computed *)")
     out.append("Definition gen_ema_formulas : list (string * string * string) :=\n  [" + ";\n   ".join(
         '("' + '", "'.join(x.replace('"', "'") for x in r) + '")' for r in ema_formulas(trees["emas"])) + "].\n")
+    out.append("(* util.mean_from_sum_count, nanops.nanmean / nanvar / nanstd: their statements in source order *)")
+    out.append("Definition gen_moment_formulas : list (string * list string) :=\n  [" + ";\n   ".join(
+        f'("{k}", {coq_str_list(v)})' for k, v in moment_formulas(trees)) + "].\n")
     nd = nanops_dispatch(trees["nanops"])
     out.append("(* nanops.reduce_1d: condition on the reducer name, skipna, initial value, reduction of the chunk results *)")
     out.append("Definition gen_nanops_dispatch : list (string * string * string * string) :=\n  [" + ";\n   ".join(
